@@ -1,5 +1,7 @@
 import IrefVerif.Lemmas.Nsegs
 import IrefVerif.Lemmas.NormList
+import IrefVerif.Lemmas.CopyNorm
+import IrefVerif.Lemmas.PathHandleValid
 
 /-!
 # C09 — dot-segment normalisation (RFC 3986 §5.2.4, Errata 4547)
@@ -15,8 +17,12 @@ buffer (`C10.path_handle_step`) — to a text that realises the normalised seque
 shield exactly when the first normalised segment could be misread, keeps the path absolute or
 relative (`inplace_realises`) and is idempotent (`inplace_idempotent`); the normalized copy is
 RFC 3986 §5.2.4 with Errata 4547, trailing `/` of a final dot segment included, whenever no shield
-is needed (`copy_is_rfc`).  The shielded copies and idempotence of the copy are checked on the
-implementation by the `paths`/`pathmut` oracles.
+is needed (`copy_is_rfc`); in every case, shielded or not, it realises the §5.2.4 target — the
+normalised sequence plus the trailing empty segment of a final dot segment — literally or behind
+the one legitimate `.` shield, keeps the path absolute or relative (`copy_realises`), and is
+idempotent (`copy_idempotent`).  Inside a URI/IRI (`normalize_in_reference`): the buffer stays a
+valid reference, scheme, authority, query and fragment are untouched and the path is the
+normalised one.
 -/
 
 namespace IrefVerif.Props.C09
@@ -78,6 +84,41 @@ trailing `/` of a final dot segment included), whenever the result needs no shie
 theorem copy_is_rfc (p : Text) (hp : PathText p) (hns : needsShield true true p = false) :
     Path.normalized p = some (removeDots p) := by
   rw [normalized_view p hp, nrmCopy_no_shield p hp hns]
+
+/-- **the normalized copy realises the §5.2.4 target in every case** (a single leading `.` only as
+the shield of a first segment that is empty or contains `:`), and stays absolute or relative -/
+theorem copy_realises (p : Text) (hp : PathText p) :
+    ∃ q, Path.normalized p = some q ∧ realises q (normTarget p) = true ∧ isAbs q = isAbs p :=
+  ⟨nrmCopy p, normalized_view p hp, nrmCopy_realises p hp⟩
+
+/-- **the normalized copy is idempotent** -/
+theorem copy_idempotent (p : Text) (hp : PathText p) :
+    ∃ q, Path.normalized p = some q ∧ Path.normalized q = some q := by
+  refine ⟨nrmCopy p, normalized_view p hp, ?_⟩
+  rw [normalized_view _ (pathText_nrmCopy p hp), nrmCopy_idempotent p hp]
+
+/-- **normalising the path of a URI/IRI in place**: no panic, the buffer is a valid reference
+again, scheme, authority, query and fragment are untouched, and the path is the normalised text -/
+theorem normalize_in_reference (G : Grammar) (ok : Grammar.Ok G) (okp : Grammar.OkPath G) (w : Text)
+    (h : RE.Matches G.reference w) :
+    ∃ h', (Ref.path_mut w).normalize = some h' ∧ RE.Matches G.reference h'.buffer ∧
+      split h'.buffer = { split w with path := h'.view } ∧
+      realises h'.view (nsegs (split w).path) = true := by
+  obtain ⟨h', e, hv, hs⟩ := path_session_valid G ok okp w h [.norm] (by intro op hop; simp at hop; subst hop; trivial)
+  have en : (Ref.path_mut w).normalize = some h' := by
+    simp only [Props.C10.pathRun, Props.C10.pathStep] at e
+    cases hp : (Ref.path_mut w).normalize with
+    | none => rw [hp] at e; cases e
+    | some x => rw [hp] at e; simp at e; rw [e]
+  refine ⟨h', en, hv, hs, ?_⟩
+  obtain ⟨_, wf⟩ := split_valid G ok w h
+  have inv := path_handle_of_reference G ok w h
+  obtain ⟨h2, e2, i2, _, _⟩ := normalize_view _ _ _ _ inv
+  rw [en] at e2
+  simp only [Option.some.injEq] at e2
+  subst e2
+  rw [i2.view]
+  exact (normView_realises _ _ _ (pathText_of_wf _ wf)).1
 
 example : Path.normalized [0x2F,0x61,0x2F,0x2E,0x2F,0x62,0x2F,0x2E,0x2E,0x2F,0x2E] = some [0x2F,0x61,0x2F] := by decide
 example : needsShield true true [0x2F,0x61,0x2F,0x2E,0x2F,0x62,0x2F,0x2E,0x2E,0x2F,0x2E] = false := by decide
